@@ -1,1 +1,77 @@
+"""Root-cause predicates of the known findings (known_findings.txt).  A failing input matches a
+known record only if the record's predicate holds of it; everything else is a new violation."""
 
+
+def _sgn_range(w):
+    return -(1 << (8 * w - 1)), (1 << (8 * w - 1))
+
+
+def const_events(tree, w):
+    """Evaluate a constant expression tree the way the compiler folds it (unbounded ints, byte
+    casts unmasked) and report whether any intermediate value leaves the w-byte signed range or a
+    byte cast is applied outside 0..255 -- exactly the situations in which unbounded folding and
+    word arithmetic can differ (Fold.fold_agrees_inrange covers all others)."""
+    lo, hi = _sgn_range(w)
+    ev = [False]
+
+    def chk(v):
+        if isinstance(v, bool):
+            return v
+        if not (lo <= v < hi):
+            ev[0] = True
+        return v
+
+    def go(t):
+        k = t[0]
+        if k == 'lit':
+            return chk(t[1])
+        if k == 'bool':
+            return t[1]
+        if k == 'neg':
+            return chk(-int(go(t[1])))
+        if k == 'pos':
+            return chk(int(go(t[1])))
+        if k == 'not':
+            return not go(t[1])
+        if k == 'isbyte':
+            v = int(go(t[1]))
+            if not (0 <= v <= 255):
+                ev[0] = True
+            return v
+        if k == 'isint':
+            return chk(int(go(t[1])))
+        if k == 'isbool':
+            return bool(go(t[1]))
+        if k == 'bin':
+            op = t[1]
+            a, b = go(t[2]), go(t[3])
+            if op in ('and', 'or'):
+                return (bool(a) and bool(b)) if op == 'and' else (bool(a) or bool(b))
+            a, b = int(a), int(b)
+            if op == '+': return chk(a + b)
+            if op == '-': return chk(a - b)
+            if op == '*': return chk(a * b)
+            if op == '/':
+                if b == 0: raise ZeroDivisionError
+                return chk(a // b)
+            if op == '%':
+                if b == 0: raise ZeroDivisionError
+                return chk(a % b)
+            return {'<': a < b, '>': a > b, '<=': a <= b, '>=': a >= b, '==': a == b, '!=': a != b}[op]
+        raise ValueError(k)
+    try:
+        go(tuple(tree) if not isinstance(tree, tuple) else tree)
+    except ZeroDivisionError:
+        pass
+    return ev[0]
+
+
+def _totuple(t):
+    return tuple(_totuple(x) if isinstance(x, (list, tuple)) else x for x in t)
+
+
+def fold_unbounded(v):
+    """F5: compile-time evaluation on unbounded integers."""
+    if v.get('cls') != 'fold_twin' or 'tree' not in v:
+        return False
+    return const_events(_totuple(v['tree']), v['w'])
